@@ -55,6 +55,12 @@ Theorem C19_stencil_entry (st : list F) (grid : list nat) (i j : nat) :
   if (i <? nprod grid) && (j <? nprod grid) then dropW (weight st (offset_between grid j i)) else zero.
 Proof. intros Hg Hs. apply (stencil_grid_entry F zero one add mul sub opp Fth big big_zero); assumption. Qed.
 
+(* ... and no position is stored twice, so the stored value at (i,j) IS that weight *)
+Theorem C19_stencil_rows_nodup (st : list F) (grid : list nat) (r : list (nat * F)) :
+  extents_ok grid -> pattern_symmetric F zero big st (length grid) ->
+  In r (csr_rows (sgrid st grid)) -> NoDup (map fst r).
+Proof. intros Hg Hs. apply (stencil_rows_nodup F zero big big_zero st grid Hg Hs). Qed.
+
 (* symmetric values (the property's case): entry (i,j) is the retained weight of coord j - coord i *)
 Theorem C19_stencil_entry_symmetric (st : list F) (grid : list nat) (i j : nat) :
   extents_ok grid -> value_symmetric F zero st (length grid) ->
@@ -229,6 +235,7 @@ Proof. split; [repeat split|]. split; [reflexivity|vm_compute; reflexivity]. Qed
 Print Assumptions C19_stencil_shape.
 Print Assumptions C19_stencil_writes_in_range.
 Print Assumptions C19_stencil_entry.
+Print Assumptions C19_stencil_rows_nodup.
 Print Assumptions C19_stencil_entry_symmetric.
 Print Assumptions C19_stencil_transpose.
 Print Assumptions C19_par_stencil_rank_rows.
